@@ -18,41 +18,20 @@ Print Assumptions C11_pools_all_modelled.
 (** * reset completeness, per pooled type: every field of the regenerated field
     list is classified; every Config/State field is (strongly) written on the
     acquire path; every External field is cleared on release. *)
-(** lossy.VP8Encoder and its TokenBuffer.  The full statements
-      reset_complete_b lossy_TokenBuffer_fields class_TokenBuffer assigned_TokenBuffer [] = true
-      reset_complete_b lossy_VP8Encoder_fields class_VP8Encoder assigned_VP8Encoder released = true
-    are FALSE of the code as it stands: TokenBuffer.Reset does not re-initialise
-    [mbStart], whose entries MarkMBStart writes only for macroblocks that record
-    tokens (skipped macroblocks keep the previous encode's — or pass's — value) while
-    EmitTokensPartitioned reads every entry.  Hence the encoder's [tokens] field,
-    whose reset is delegated to TokenBuffer.Reset, is not completely reset either.
-    Replayed on the Go code by the harness (history "encode textured image with
-    Partitions >= 1; encode flat image of the same macroblock dimensions"). *)
-Definition C11_reset_complete_VP8Encoder_full_statement : Prop :=
-  reset_complete_b F.lossy_TokenBuffer_fields class_TokenBuffer assigned_TokenBuffer [] = true /\
+(** lossy.VP8Encoder and the TokenBuffer nested in it (its reset is delegated to
+    TokenBuffer.Reset, which counts only if that reset is itself complete).
+    History: on the tree before fix f63046c this statement was refuted — Reset did
+    not re-initialise [mbStart] (written only for macroblocks that record tokens,
+    read for every macroblock by EmitTokensPartitioned). *)
+Theorem C11_reset_complete_TokenBuffer :
+  reset_complete_b F.lossy_TokenBuffer_fields class_TokenBuffer assigned_TokenBuffer [] = true.
+Proof. exact reset_complete_TokenBuffer. Qed.
+Print Assumptions C11_reset_complete_TokenBuffer.
+
+Theorem C11_reset_complete_VP8Encoder :
   reset_complete_b F.lossy_VP8Encoder_fields class_VP8Encoder assigned_VP8Encoder released_VP8Encoder = true.
-
-Theorem C11_reset_complete_TokenBuffer_refuted :
-  unreset_state F.lossy_TokenBuffer_fields class_TokenBuffer assigned_TokenBuffer = ["mbStart"]
-  /\ reset_complete_b F.lossy_TokenBuffer_fields class_TokenBuffer assigned_TokenBuffer [] = false.
-Proof. exact reset_incomplete_TokenBuffer_refuted. Qed.
-Print Assumptions C11_reset_complete_TokenBuffer_refuted.
-
-Theorem C11_reset_complete_TokenBuffer_partial :
-  reset_complete_b F.lossy_TokenBuffer_fields class_TokenBuffer (assigned_TokenBuffer ++ ["mbStart"]) [] = true.
-Proof. exact reset_complete_TokenBuffer_partial. Qed.
-Print Assumptions C11_reset_complete_TokenBuffer_partial.
-
-Theorem C11_reset_complete_VP8Encoder_refuted :
-  unreset_state F.lossy_VP8Encoder_fields class_VP8Encoder assigned_VP8Encoder = ["tokens"]
-  /\ reset_complete_b F.lossy_VP8Encoder_fields class_VP8Encoder assigned_VP8Encoder released_VP8Encoder = false.
-Proof. exact reset_incomplete_VP8Encoder_refuted. Qed.
-Print Assumptions C11_reset_complete_VP8Encoder_refuted.
-
-Theorem C11_reset_complete_VP8Encoder_partial :
-  reset_complete_b F.lossy_VP8Encoder_fields class_VP8Encoder (assigned_VP8Encoder ++ ["tokens"]) released_VP8Encoder = true.
-Proof. exact reset_complete_VP8Encoder_partial. Qed.
-Print Assumptions C11_reset_complete_VP8Encoder_partial.
+Proof. exact reset_complete_VP8Encoder. Qed.
+Print Assumptions C11_reset_complete_VP8Encoder.
 
 Theorem C11_acquire_path_VP8Encoder :
   subset acquire_calls_VP8Encoder F.lossy_VP8Encoder_NewEncoder_calls = true /\
@@ -98,27 +77,24 @@ Theorem C11_reset_complete_argbBuf :
 Proof. exact reset_complete_argbBuf. Qed.
 Print Assumptions C11_reset_complete_argbBuf.
 
-(** lossy.Decoder.  The full statement
-      reset_complete_b lossy_Decoder_fields class_lossy_Decoder assigned_lossy_Decoder released = true
-    is FALSE of the code as it stands: [intraL] (left intra modes, read by the first
-    parseIntraModeRow of a frame, restored to DC only by initScanline at the end of
-    every completed row) is not re-initialised on acquire, so a decode that fails
-    mid-row leaves stale modes for the next decode.  Replayed on the Go code by the
-    harness (history "decode truncated lossy file; decode valid file"). *)
-Definition C11_reset_complete_lossy_Decoder_full_statement : Prop :=
+(** lossy.Decoder.  History: refuted before fix fa3b99c — [intraL] (left intra
+    modes, read by the first parseIntraModeRow of a frame, restored to DC only by
+    initScanline at the end of every completed row) was not re-initialised on
+    acquire, so a decode that failed mid-row left stale modes for the next decode. *)
+Theorem C11_reset_complete_lossy_Decoder :
   reset_complete_b F.lossy_Decoder_fields class_lossy_Decoder assigned_lossy_Decoder released_lossy_Decoder = true.
+Proof. exact reset_complete_lossy_Decoder. Qed.
+Print Assumptions C11_reset_complete_lossy_Decoder.
 
-Theorem C11_reset_complete_lossy_Decoder_refuted :
-  unreset_state F.lossy_Decoder_fields class_lossy_Decoder assigned_lossy_Decoder = ["intraL"]
-  /\ reset_complete_b F.lossy_Decoder_fields class_lossy_Decoder assigned_lossy_Decoder released_lossy_Decoder = false.
-Proof. exact reset_incomplete_lossy_Decoder_refuted. Qed.
-Print Assumptions C11_reset_complete_lossy_Decoder_refuted.
-
-Theorem C11_reset_complete_lossy_Decoder_partial :
-  reset_complete_b F.lossy_Decoder_fields class_lossy_Decoder
-                   (assigned_lossy_Decoder ++ ["intraL"]) released_lossy_Decoder = true.
-Proof. exact reset_complete_lossy_Decoder_partial. Qed.
-Print Assumptions C11_reset_complete_lossy_Decoder_partial.
+(** no Config/State field of any pooled codec object is left alone by its acquire path *)
+Theorem C11_nothing_unreset :
+  unreset_state F.lossy_Decoder_fields class_lossy_Decoder assigned_lossy_Decoder = [] /\
+  unreset_state F.lossy_VP8Encoder_fields class_VP8Encoder assigned_VP8Encoder = [] /\
+  unreset_state F.lossy_TokenBuffer_fields class_TokenBuffer assigned_TokenBuffer = [] /\
+  unreset_state F.lossless_Encoder_fields class_lossless_Encoder assigned_lossless_Encoder = [] /\
+  unreset_state F.lossless_Decoder_fields class_lossless_Decoder assigned_lossless_Decoder = [].
+Proof. exact nothing_unreset. Qed.
+Print Assumptions C11_nothing_unreset.
 
 (** references to caller data are cleared by the release functions themselves *)
 Theorem C11_released_external_cleared :
@@ -205,10 +181,14 @@ Proof. exact history_all_outputs_fresh. Qed.
 Print Assumptions C11_history_all_outputs_fresh.
 
 (** instantiated with the regenerated lists of the real pooled types *)
-Theorem C11_history_independent_lossless_and_buffers :
+Theorem C11_history_independent_all_pooled_types :
   forall (Args Out Val Shape : Type) (shape : Args -> Val -> Shape)
          (init : Args -> string -> Val) (nilv : Val)
          (gate : Args -> (string -> Val) -> bool) (run : Args -> (string -> Val) -> Out * (string -> Val)),
+    hist_indep Args Out Val Shape shape init nilv gate run
+               F.lossy_VP8Encoder_fields class_VP8Encoder assigned_VP8Encoder released_VP8Encoder /\
+    hist_indep Args Out Val Shape shape init nilv gate run
+               F.lossy_Decoder_fields class_lossy_Decoder assigned_lossy_Decoder released_lossy_Decoder /\
     hist_indep Args Out Val Shape shape init nilv gate run
                F.lossless_Encoder_fields class_lossless_Encoder assigned_lossless_Encoder released_lossless_Encoder /\
     hist_indep Args Out Val Shape shape init nilv gate run
@@ -221,34 +201,15 @@ Theorem C11_history_independent_lossless_and_buffers :
                F.lossy_parallelState_fields class_parallelState assigned_parallelState
                (strongly_written F.lossy_parallelState_putParallelState_writes).
 Proof.
-  intros. exact (
+  intros. exact (conj (history_independent_VP8Encoder _ _ _ _ _ _ _ _ _)
+                (conj (history_independent_lossy_Decoder _ _ _ _ _ _ _ _ _)
                 (conj (history_independent_lossless_Encoder _ _ _ _ _ _ _ _ _)
                 (conj (history_independent_lossless_Decoder _ _ _ _ _ _ _ _ _)
                 (conj (history_independent_BoolWriter _ _ _ _ _ _ _ _ _)
                 (conj (history_independent_argbBuf _ _ _ _ _ _ _ _ _)
-                      (history_independent_parallelState _ _ _ _ _ _ _ _ _)))))).
+                      (history_independent_parallelState _ _ _ _ _ _ _ _ _))))))).
 Qed.
-Print Assumptions C11_history_independent_lossless_and_buffers.
-
-(** the lossy encoder: only with TokenBuffer.mbStart (hence [tokens]) reset as well *)
-Theorem C11_history_independent_VP8Encoder_partial :
-  forall (Args Out Val Shape : Type) (shape : Args -> Val -> Shape)
-         (init : Args -> string -> Val) (nilv : Val)
-         (gate : Args -> (string -> Val) -> bool) (run : Args -> (string -> Val) -> Out * (string -> Val)),
-    hist_indep Args Out Val Shape shape init nilv gate run
-               F.lossy_VP8Encoder_fields class_VP8Encoder (assigned_VP8Encoder ++ ["tokens"]) released_VP8Encoder.
-Proof. exact history_independent_VP8Encoder_partial. Qed.
-Print Assumptions C11_history_independent_VP8Encoder_partial.
-
-(** the lossy decoder: only with intraL reset as well *)
-Theorem C11_history_independent_lossy_Decoder_partial :
-  forall (Args Out Val Shape : Type) (shape : Args -> Val -> Shape)
-         (init : Args -> string -> Val) (nilv : Val)
-         (gate : Args -> (string -> Val) -> bool) (run : Args -> (string -> Val) -> Out * (string -> Val)),
-    hist_indep Args Out Val Shape shape init nilv gate run
-               F.lossy_Decoder_fields class_lossy_Decoder (assigned_lossy_Decoder ++ ["intraL"]) released_lossy_Decoder.
-Proof. exact history_independent_lossy_Decoder_partial. Qed.
-Print Assumptions C11_history_independent_lossy_Decoder_partial.
+Print Assumptions C11_history_independent_all_pooled_types.
 
 (** the hypotheses are satisfiable and each is needed: a two-field instance where the
     theorem applies, and the same instance with the reset line deleted, for which
